@@ -196,6 +196,9 @@ def const_int(e: ast.AST) -> Optional[int]:
 
 WRITE_KINDS = {'write_int32': 'i32', 'write_int64': 'i64', 'write_float32': 'f32', 'write_float64': 'f64', 'write_bool': 'bool', 'write_byte': 'byte'}
 READ_KINDS = {'read_int32': 'i32', 'read_int64': 'i64', 'read_float32': 'f32', 'read_float64': 'f64', 'read_bool': 'bool'}
+PACK_KINDS = {'i': 'i32', 'q': 'i64', 'f': 'f32', 'd': 'f64', 'B': 'byte'}   # struct codes (standard sizes, '=' / '<') of the primitives
+STREAM_FILE = 'hail/python/hail/utils/byte_reader.py'
+PRIMITIVE_STREAM_OPS = set(WRITE_KINDS) | set(READ_KINDS) | {'write_bytes', 'read_bytes', 'read_bytes_view'}
 
 
 def _always_exits(stmts: Sequence[ast.stmt]) -> bool:
@@ -233,6 +236,11 @@ class Extractor:
             self.value = ps[2] if len(ps) > 2 and side == 'w' else None
             # helpers that receive the stream (extracted missing-bit writers, shared readers, ...) are analysed in place
             self.fn, self.inlined = inline_stream_helpers(m, cls, fn, self.stream)
+            # composite operations defined on the stream class itself (ByteWriter.write_str = write_int32 + append, ...) are analysed in
+            # place too: their bodies are rewritten onto the stream name; the primitive operations (R1 of C33 decides those) stay calls
+            self.fn, more = inline_stream_methods(m, self.fn, self.stream, side)
+            self.inlined += more
+        self.buf_attr = stream_buffer_attr(m, side) if side == 'w' else None
         self.selfname = ps[0] if ps else 'self'
 
     def fail(self, node: Optional[ast.AST], msg: str):
@@ -308,6 +316,11 @@ class Extractor:
                 if st.value is None:
                     continue
                 out += self.expr(st.value, None, st)
+            elif isinstance(st, ast.AugAssign) and self.side == 'w' and self.buf_attr is not None and isinstance(st.op, ast.Add) \
+                    and isinstance(st.target, ast.Attribute) and isinstance(st.target.value, ast.Name) and st.target.value.id == self.stream \
+                    and st.target.attr == self.buf_attr and not mentions(st.value, self.stream):
+                # `<stream>._buf += E` (body of an inlined stream method): what write_bytes(E) does - or a primitive when E is struct.pack(<fmt>, v)
+                out.append(self.direct_append(st))
             else:
                 self.fail(st, f'unrecognised statement kind {type(st).__name__} touching the byte stream')
         return out
@@ -393,6 +406,15 @@ class Extractor:
                 return ('bytes', dict(arg=call.args[0], view=attr == 'read_bytes_view', node=call, bind=bind))
         self.fail(call, f'unknown byte-stream operation `{attr}` on the {"writer" if self.side == "w" else "reader"} side')
         return ('raise',)
+
+    def direct_append(self, st: ast.AugAssign) -> tuple:
+        v = st.value
+        if isinstance(v, ast.Call) and pf.dotted(v.func) == 'struct.pack':
+            fmt = pf.const_str(v.args[0]) if v.args else None
+            if fmt is None or len(fmt) != 2 or fmt[0] not in '=<' or fmt[1] not in PACK_KINDS or len(v.args) != 2 or v.keywords:
+                self.fail(st, f'bytes appended to the stream buffer are `{pf.nsrc(v)[:60]}`: not a struct format of the primitive table')
+            return ('prim', PACK_KINDS[fmt[1]], dict(arg=v.args[1], bind=None, node=st))
+        return ('bytes', dict(arg=v, view=False, node=st, bind=None))
 
     # -- idioms ---------------------------------------------------------------
     def _counter_init(self, name: str, before: Sequence[ast.stmt]) -> Optional[ast.expr]:
@@ -1221,6 +1243,71 @@ def inline_stream_helpers(m: pf.Module, cls_name: str, fn: pf.FuncDef, stream: s
         ast.fix_missing_locations(work)
         cur = work
     return cur, inlined
+
+
+def stream_class(m: pf.Module, side: str) -> Optional[ast.ClassDef]:
+    """The class of the byte stream handed to the converters of direction `side`: the one the entry point of HailType constructs
+    (`self._convert_to_encoding(ByteWriter(buf), value)` / `self._convert_from_encoding(ByteReader(...))`), when the module imports that
+    name from the byte-stream module.  None when this cannot be established (the extractor then declines on unknown operations)."""
+    conv = '_convert_to_encoding' if side == 'w' else '_convert_from_encoding'
+    try:
+        base = m.cls('HailType')
+    except AnalysisError:
+        return None
+    names: Set[str] = set()
+    for fn in methods(base).values():
+        for c in pf.calls_in(fn):
+            if isinstance(c.func, ast.Attribute) and c.func.attr == conv and c.args and isinstance(c.args[0], ast.Call) and isinstance(c.args[0].func, ast.Name):
+                names.add(c.args[0].func.id)
+    if len(names) != 1:
+        return None
+    name = next(iter(names))
+    imported = any(isinstance(st, ast.ImportFrom) and (st.module or '').split('.')[-1] == 'byte_reader' and any((a.asname or a.name) == name and a.name == name for a in st.names)
+                   for st in m.tree.body)
+    if not imported:
+        return None
+    try:
+        return pf.load(STREAM_FILE).cls(name)
+    except AnalysisError:
+        return None
+
+
+def stream_buffer_attr(m: pf.Module, side: str) -> Optional[str]:
+    """Attribute of the writer that `write_bytes(bs)` appends to (`self._buf += bs`), else None."""
+    c = stream_class(m, side)
+    if c is None:
+        return None
+    wb = methods(c).get('write_bytes')
+    if wb is None:
+        return None
+    b = body_wo_doc(wb)
+    ps = param_names(wb)
+    if len(b) == 1 and len(ps) == 2 and isinstance(b[0], ast.AugAssign) and isinstance(b[0].op, ast.Add) and isinstance(b[0].target, ast.Attribute) \
+            and isinstance(b[0].target.value, ast.Name) and b[0].target.value.id == ps[0] and isinstance(b[0].value, ast.Name) and b[0].value.id == ps[1]:
+        return b[0].target.attr
+    return None
+
+
+def inline_stream_methods(m: pf.Module, fn: pf.FuncDef, stream: str, side: str) -> Tuple[pf.FuncDef, List[str]]:
+    """Copy of `fn` in which statement-level calls `<stream>.op(...)` of NON-primitive operations defined on the stream class (composite
+    readers / writers such as write_str = length prefix + bytes) are replaced by the operation's body, with its `self` renamed to the
+    stream.  Primitive operations (PRIMITIVE_STREAM_OPS) stay calls.  Returns (function, labels of the operations inlined)."""
+    from . import inline as INL
+    c = stream_class(m, side)
+    if c is None:
+        return fn, []
+    helpers = {n: f for n, f in methods(c).items() if n not in PRIMITIVE_STREAM_OPS and not n.startswith('__') and isinstance(f, ast.FunctionDef)}
+    used = {n.func.attr for n in ast.walk(fn) if isinstance(n, ast.Call) and isinstance(n.func, ast.Attribute) and isinstance(n.func.value, ast.Name)
+            and n.func.value.id == stream and n.func.attr in helpers}
+    if not used:
+        return fn, []
+    work = copy.deepcopy(fn)
+    il = INL.Inliner({k: copy.deepcopy(v) for k, v in helpers.items()}, stream, max_depth=3)
+    il.run(work)
+    if not il.inlined:
+        return fn, []
+    ast.fix_missing_locations(work)
+    return work, [f'{c.name}.{n}' for n, _ in il.inlined]
 
 
 # --------------------------------------------------------------------------------------
